@@ -113,6 +113,8 @@ import prettyprinter as pp
 pp.install_extras(['ipython_repr_pretty', 'dataclasses', 'attrs'], warn_on_error=False)
 sys.setrecursionlimit(100000)
 import dataclasses
+import collections, types
+NT = collections.namedtuple('NT', 'child tag')
 
 class Box:
     def __init__(self, child): self.child = child
@@ -164,6 +166,13 @@ FAMS = {
     # without the comment - never more often): a printer raising TypeError after it rendered its child; comment texts of a wrong type
     'failing_printers_under_trailing_comments': (lambda n: nest(lambda v: pp.trailing_comment(Flaky(v), 'c'), n, 1), {}),
     'trailing_comments_of_wrong_type': (lambda n: nest(lambda v: pp.trailing_comment([v], b'c'), n, 1), {}),
+    # comments on the arguments / fields of call-style printed values at every level (a printer may render an argument once per
+    # layout alternative it builds - not once per alternative per level)
+    'nested_namedtuples_with_trailing_comments': (lambda n: nest(lambda v: pp.trailing_comment(NT(v, 0), 'c'), n, 1), {}),
+    'nested_namedtuples_with_commented_fields': (lambda n: nest(lambda v: NT(pp.comment(v, 'c'), 0), n, 1), {}),
+    'nested_calls_with_commented_argument': (lambda n: nest(lambda v: KeyObj(pp.comment(v, 'c')), n, 1), {}),
+    'nested_calls_with_trailing_commented_argument': (lambda n: nest(lambda v: KeyObj(pp.trailing_comment(v, 'c')), n, 1), {}),
+    'nested_namespaces_with_commented_fields': (lambda n: nest(lambda v: types.SimpleNamespace(a=pp.comment(v, 'c'), b=0), n, 1), {}),
     'trailing_comments_of_wrong_type_in_dicts': (lambda n: nest(lambda v: pp.trailing_comment({'k': v}, b'c'), n, 1), {}),
     'repr_pretty_nested': (lambda n: nest(Box, n, 1), {}),
     'repr_pretty_pairs': (lambda n: nest(lambda v: Pair(0, v), n, 1), {}),
@@ -294,7 +303,7 @@ def cost_section(tier, seed):
     stats = {'evaluations': tot, 'distinct_nontrivial': nt, 'families': len(rows), 'sizes': [base * m for m in mults],
              'ratio_limit': RATIO, 'rows': rows, 'mismatches': 0,
              'samples': [{'family': 'nested_dicts_3keys', 'steps': rows['nested_dicts_3keys']['steps']}],
-             'rule': 'LINE events inside /repo/prettyprinter (sys.monitoring) for %d families (incl. 15 measured in a fresh interpreter with the ipython_repr_pretty / dataclasses / attrs extras: nested _repr_pretty_ objects, unorderable dict keys whose repr is pretty_repr, nested dataclasses) at n = %s; a family fails if a doubling multiplies the step count by more than %.0f, '
+             'rule': 'LINE events inside /repo/prettyprinter (sys.monitoring) for %d families (incl. 20 measured in a fresh interpreter with the ipython_repr_pretty / dataclasses / attrs extras: nested _repr_pretty_ objects, unorderable dict keys whose repr is pretty_repr, nested dataclasses) at n = %s; a family fails if a doubling multiplies the step count by more than %.0f, '
                      'if the step budget is exceeded, or if steps exceed 4 x the calibrated constant x the model cost (printer invocations + machine and lookahead iterations); '
                      'non-trivial = families measured' % (len(rows), [base * m for m in mults], RATIO)}
     return stats, mism, fails
